@@ -12,9 +12,13 @@ Every theorem quantifies over ALL schedules `ops` (all completion orders of the 
 its body ends), all failure patterns `outs`, all semaphore sizes `n ≥ 1`, any number of tasks: `run fl en n outs ops = some s`
 says `s` is the state after the whole schedule; every prefix of a schedule is a schedule, so this is "after every step".
 
-Four clauses of the property are FALSE for the code as it is; each is kept at full strength as a `def … : Prop`, refuted on its
-minimal witness (the same witnesses the check replays on the real code and `known_findings.json` lists), and proved in the
-strongest form that does hold (`…_partial`).
+Three defects found by this check were repaired in the code (b83b6cc09 `bounded_gather` holds a permit; 2f78d4573
+`cancel_on_error` cancels and awaits every unfinished task; 426463a22 `OnlineBoundedGather2._shutdown` waits for the tasks it
+cancels): the corresponding clauses are now full-strength theorems about the current model, and the pre-repair behaviour is kept as
+`startOld / stepOld` with the refutations on the old witnesses.  One clause is still FALSE for the code as it is (finding F4, the
+permit that `WithoutSemaphore` does not re-acquire on error): it is kept at full strength as a `def … : Prop`, refuted on its
+minimal witness (the one the check replays on the real code and `known_findings.json` lists) and proved in the strongest form that
+does hold (`running_le_bound_partial`).
 -/
 namespace HailVerif.C20
 open HailVerif.Gather
@@ -22,6 +26,10 @@ open HailVerif.Gather
 /-- the state after schedule `ops` of helper `fl`, entered as `en`, on a semaphore created with `n` permits -/
 def run (fl : Flavour) (en : Entry) (n : Nat) (outs : List Outcome) (ops : List Op) : Option State :=
   runFrom (start fl en n outs) ops
+
+/-- the same for the code before the three repairs -/
+def runOld (fl : Flavour) (en : Entry) (n : Nat) (outs : List Outcome) (ops : List Op) : Option State :=
+  runFromWith stepOld (startOld fl en n outs) ops
 
 theorem run_reach {fl : Flavour} {en : Entry} {n : Nat} {outs : List Outcome} {ops : List Op} {s : State}
     (h : run fl en n outs ops = some s) : Reach fl en n outs s ops := by
@@ -33,7 +41,7 @@ variable (fl : Flavour) (en : Entry) (n : Nat) (outs : List Outcome) (ops : List
 /-! ## the bound -/
 
 /-- Permit accounting, after every step: bodies running + free permits is exactly `budget n s` — `n`, minus the caller's permit
-while the body of an online pool holds it, plus one when a permit was released that nobody held (see `budget`). -/
+while the body of an online pool holds it, plus one after a raising helper has raised (finding F4, see `budget`). -/
 theorem permits_accounted (hn : 1 ≤ n) (h : run fl en n outs ops = some s) : nRunning s.st + s.free = budget n s :=
   reach_budget hn (run_reach h)
 
@@ -49,40 +57,46 @@ def RunningLeBound : Prop :=
   ∀ (fl : Flavour) (en : Entry) (n : Nat) (outs : List Outcome) (ops : List Op) (s : State),
     1 ≤ n → run fl en n outs ops = some s → nRunning s.st ≤ n
 
-/-- FALSE (finding F1): `bounded_gather(pf, pf, parallelism=1)` runs both bodies at once — the fresh `Semaphore(1)` gets a second
-permit from `WithoutSemaphore.__aenter__`. -/
-theorem running_le_bound_fails_for_bounded_gather : ¬ RunningLeBound := by
-  intro h
-  have := h .returnExceptions .boundedGather 1 [.ret 0, .ret 0] [] _ (by decide) rfl
-  revert this; decide
-
-/-- FALSE even when the caller holds a permit (finding F4): `Semaphore(1)`, tasks `[raise, ok, ok]`; after task 0 fails
+/-- Still FALSE (open finding F4): `Semaphore(1)` held by the caller, `bounded_gather2` of `[raise, ok, ok]`; after task 0 fails
 `WithoutSemaphore.__aexit__` does not re-acquire, the caller's `async with sema:` releases once more, and two bodies run. -/
-theorem running_le_bound_fails_after_error :
-    ¬ (∀ (fl : Flavour) (n : Nat) (outs : List Outcome) (ops : List Op) (s : State),
-        1 ≤ n → run fl .holdingPermit n outs ops = some s → nRunning s.st ≤ n) := by
+theorem running_le_bound_fails_after_error : ¬ RunningLeBound := by
   intro h
-  have := h .raiseFirst 1 [.raise 0, .ret 0, .ret 0] [.finish 0] _ (by decide) rfl
+  have := h .raiseFirst .holdingPermit 1 [.raise 0, .ret 0, .ret 0] [.finish 0] _ (by decide) rfl
   revert this; decide
 
-/-- What does hold: when the caller holds a permit of the semaphore (the convention `WithoutSemaphore` is written for) at most
-`n` bodies run at once, at every step, as long as the raising helpers have not raised; for `return_exceptions` and the online
-pool always. -/
-theorem running_le_bound_partial (hn : 1 ≤ n) (h : run fl .holdingPermit n outs ops = some s)
-    (hok : fl = .returnExceptions ∨ fl = .online ∨ ∀ e, s.helper ≠ .raised e) : nRunning s.st ≤ n := by
+/-- What does hold, for `bounded_gather2`/the pool called by a permit holder and for `bounded_gather(parallelism=n)` alike: at most
+`n` bodies run at once, at every step — always for `return_exceptions`, `cancel_on_error=True` and the online pool, and for
+`cancel_on_error=False` as long as the helper has not raised. -/
+theorem running_le_bound_partial (hn : 1 ≤ n) (h : run fl en n outs ops = some s)
+    (hok : fl ≠ .raiseFirst ∨ ∀ e, s.helper ≠ .raised e) : nRunning s.st ≤ n := by
   have hr := run_reach h
-  have := permits_accounted fl .holdingPermit n outs ops s hn h
-  obtain ⟨⟨h1, h2, _⟩, hC, _, _⟩ := reach_all hr
-  have hb : budget n s ≤ n := by
-    unfold budget
-    rw [h2, h1]
-    rcases hok with rfl | rfl | hok
-    · cases hh : s.helper with
-      | raised e => exact absurd hh (hC.rxNoRaise h1 e)
-      | _ => simp
-    · cases hh : s.helper <;> simp
-    · cases fl <;> cases hh : s.helper <;> simp <;> exact absurd hh (hok _)
-  omega
+  have := permits_accounted fl en n outs ops s hn h
+  obtain ⟨⟨h1, _, _⟩, hC, _, _⟩ := reach_all hr
+  cases hh : s.helper with
+  | raised e =>
+    cases fl with
+    | raiseFirst => rcases hok with hok | hok
+                    · exact absurd rfl hok
+                    · exact absurd hh (hok e)
+    | returnExceptions => exact absurd hh (hC.rxNoRaise h1 e)
+    | raiseCancel => have := allDone_nRunning _ (hC.rcRaised h1 e hh); omega
+    | online => have : budget n s = n := by simp [budget, h1, hh]
+                omega
+  | active => have : budget n s ≤ n := by unfold budget; rw [h1, hh]; cases fl <;> simp
+              omega
+  | exiting => have : budget n s ≤ n := by unfold budget; rw [h1, hh]; cases fl <;> simp
+               omega
+  | returned sl => have : budget n s ≤ n := by unfold budget; rw [h1, hh]; cases fl <;> simp
+                   omega
+
+/-- The repaired defect F1, kept as a witness: before b83b6cc09 `bounded_gather(pf, pf, parallelism=1)` ran both bodies at once
+(the fresh `Semaphore(1)` got a second permit from `WithoutSemaphore.__aenter__`). -/
+theorem bounded_gather_bound_failed_before_repair :
+    ¬ (∀ (fl : Flavour) (n : Nat) (outs : List Outcome) (ops : List Op) (s : State),
+        1 ≤ n → runOld fl .boundedGather n outs ops = some s → nRunning s.st ≤ n) := by
+  intro h
+  have := h .returnExceptions 1 [.ret 0, .ret 0] [] _ (by decide) rfl
+  revert this; decide
 
 /-! ## results -/
 
@@ -145,74 +159,21 @@ theorem none_running_after_return (h : run fl en n outs ops = some s) (sl : List
   obtain ⟨⟨e, he⟩, _⟩ := hP hne
   simp [hret] at he
 
-/-- `cancel_on_error=True` at full strength: once the helper has raised, every task is finished (cancelled and awaited). -/
-def CancelOnErrorCancelsRest : Prop :=
-  ∀ (en : Entry) (n : Nat) (outs : List Outcome) (ops : List Op) (s : State) (e : Nat),
-    1 ≤ n → run .raiseCancel en n outs ops = some s → s.helper = .raised e → allDone s.st = true ∧ s.pendingAtReturn = 0
+/-- `cancel_on_error=True`: once the helper has raised, every task is finished — the unfinished ones were cancelled AND awaited:
+none was pending at the instant the helper raised. -/
+theorem cancel_on_error_cancels_rest (h : run .raiseCancel en n outs ops = some s) (e : Nat) (hr : s.helper = .raised e) :
+    allDone s.st = true ∧ s.pendingAtReturn = 0 := by
+  obtain ⟨⟨h1, _, _⟩, hC, _, hP⟩ := reach_all (run_reach h)
+  refine ⟨hC.rcRaised h1 e hr, ?_⟩
+  apply Classical.byContradiction
+  intro hne
+  have := (hP hne).2
+  simp [h1] at this
 
-/-- FALSE (finding F2): tasks `[raise, ok]` on a `Semaphore(1)` held by the caller; task 0 fails, the clean-up loop re-raises at
-the failed task, task 1 is never cancelled: it is running after the helper raised. -/
-theorem cancel_on_error_cancels_rest_fails : ¬ CancelOnErrorCancelsRest := by
-  intro h
-  have := (h .holdingPermit 1 [.raise 0, .ret 0] [.finish 0] _ 0 (by decide) rfl rfl).1
-  revert this; decide
-
-/-- FALSE also when the failed task is the last one (finding F2, second face): tasks `[ok, raise]`, task 1 fails; task 0 is
-cancelled but not awaited — it is unfinished at the instant the helper raises. -/
-theorem cancel_on_error_awaits_fails :
-    ¬ (∀ (en : Entry) (n : Nat) (outs : List Outcome) (ops : List Op) (s : State) (e : Nat),
-        1 ≤ n → run .raiseCancel en n outs ops = some s → s.helper = .raised e → s.pendingAtReturn = 0) := by
-  intro h
-  have := h .holdingPermit 2 [.ret 0, .raise 0] [.finish 1] _ 0 (by decide) rfl rfl
-  revert this; decide
-
-/-- What does hold: when task `i` is the first to fail, the helper raises its exception in that very step and every task up to
-and including `i` in submission order is finished (the unfinished ones before `i` were cancelled) after the loop settles. -/
-theorem cancel_on_error_cancels_rest_partial (h : run .raiseCancel en n outs ops = some s) (hact : s.helper = .active)
-    (i e : Nat) (hout : outs[i]? = some (.raise e)) (s' : State) (hs : step s (.finish i) = some s') :
-    s'.helper = .raised e ∧ ∀ k, k ≤ i → ∃ q, s'.st[k]? = some (TSt.done q) := by
-  obtain ⟨⟨h1, _, h3⟩, _, _, _⟩ := reach_all (run_reach h)
-  have hc := step_cases hs
-  rw [← h3] at hout
-  cases hc with
-  | plain i o hst hout' hside =>
-    rw [hout] at hout'; cases hout'
-    rcases hside with hf | ⟨_, hna | ⟨v, hv⟩⟩ | ⟨hf, _⟩
-    · simp [h1] at hf
-    · exact absurd hact hna
-    · cases hv
-    · simp [h1] at hf
-  | ret i o hst hout' had hside =>
-    rw [hout] at hout'; cases hout'
-    rcases hside with ⟨_, _, hf | ⟨v, hv⟩⟩ | ⟨hf, _⟩
-    · simp [h1] at hf
-    · cases hv
-    · simp [h1] at hf
-  | raiseF i e' hst hout' hfl hh => simp [h1] at hfl
-  | raiseC i e' hst hout' hfl hh =>
-    rw [hout] at hout'; cases hout'
-    exact ⟨by simp, fun k hk => raiseC_done_upto s i e hst k hk⟩
-  | onlineFailExit i e' hst hout' hfl hh => simp [h1] at hfl
-  | onlineFail i e' hst hout' hfl hh => simp [h1] at hfl
-
-/-- `OnlineBoundedGather2` at full strength: when the `async with` block is left, no task is unfinished. -/
-def PendingEmptyAtExit : Prop :=
-  ∀ (en : Entry) (n : Nat) (outs : List Outcome) (ops : List Op) (s : State),
-    1 ≤ n → run .online en n outs ops = some s → (s.helper ≠ .active ∧ s.helper ≠ .exiting) →
-      allDone s.st = true ∧ s.pendingAtReturn = 0
-
-/-- FALSE (finding F3): one task submitted, the body raises: `__aexit__` → `_shutdown()` cancels the task but does not wait for
-it; the exit raises while the task has not run its cancellation yet. -/
-theorem pending_empty_at_exit_fails : ¬ PendingEmptyAtExit := by
-  intro h
-  have := (h .holdingPermit 1 [.ret 0] [.body (.raise 0)] _ (by decide) rfl (by decide)).2
-  revert this; decide
-
-/-- What does hold: once the pool has been left (normally or with an exception) every task is finished after the loop settles;
-and a task can be unfinished at the instant of the exit only if it is the BODY that raised. -/
-theorem pending_empty_at_exit_partial (h : run .online en n outs ops = some s)
-    (hleft : s.helper ≠ .active ∧ s.helper ≠ .exiting) :
-    allDone s.st = true ∧ (s.pendingAtReturn ≠ 0 → ∃ e, Op.body (.raise e) ∈ ops) := by
+/-- `OnlineBoundedGather2`: when the `async with` block has been left — normally, because a task failed, or because the body
+raised — every task is finished and none was pending at the instant of the exit. -/
+theorem pending_empty_at_exit (h : run .online en n outs ops = some s) (hleft : s.helper ≠ .active ∧ s.helper ≠ .exiting) :
+    allDone s.st = true ∧ s.pendingAtReturn = 0 := by
   obtain ⟨⟨h1, _, _⟩, hC, _, hP⟩ := reach_all (run_reach h)
   constructor
   · cases hh : s.helper with
@@ -220,11 +181,44 @@ theorem pending_empty_at_exit_partial (h : run .online en n outs ops = some s)
     | exiting => exact absurd hh hleft.2
     | returned sl => exact (hC.ret sl hh).2.1
     | raised e => exact (hC.excOnline e (hC.raisedExc h1 e hh)).2
-  · intro hne
-    obtain ⟨_, hf | hf | ⟨_, hb⟩⟩ := hP hne
-    · simp [h1] at hf
-    · simp [h1] at hf
-    · exact hb
+  · apply Classical.byContradiction
+    intro hne
+    have := (hP hne).2
+    simp [h1] at this
+
+/-- Only `cancel_on_error=False` — by its documentation — leaves tasks running when it raises. -/
+theorem unfinished_at_return_only_without_cancel (h : run fl en n outs ops = some s) (hne : s.pendingAtReturn ≠ 0) :
+    fl = .raiseFirst ∧ ∃ e, s.helper = .raised e := by
+  obtain ⟨⟨h1, _, _⟩, _, _, hP⟩ := reach_all (run_reach h)
+  obtain ⟨he, hf⟩ := hP hne
+  exact ⟨h1 ▸ hf, he⟩
+
+/-- The repaired defect F2, kept as a witness: before 2f78d4573, tasks `[raise, ok]` on a `Semaphore(1)` held by the caller; task 0
+fails, the clean-up loop re-raised at the failed task and task 1 was never cancelled: running after the helper raised. -/
+theorem cancel_on_error_failed_before_repair :
+    ¬ (∀ (en : Entry) (n : Nat) (outs : List Outcome) (ops : List Op) (s : State) (e : Nat),
+        1 ≤ n → runOld .raiseCancel en n outs ops = some s → s.helper = .raised e → allDone s.st = true) := by
+  intro h
+  have := h .holdingPermit 1 [.raise 0, .ret 0] [.finish 0] _ 0 (by decide) rfl rfl
+  revert this; decide
+
+/-- F2, second face: tasks `[ok, raise]`, task 1 fails; task 0 was cancelled but not awaited — unfinished at the instant the helper
+raised. -/
+theorem cancel_on_error_await_failed_before_repair :
+    ¬ (∀ (en : Entry) (n : Nat) (outs : List Outcome) (ops : List Op) (s : State) (e : Nat),
+        1 ≤ n → runOld .raiseCancel en n outs ops = some s → s.helper = .raised e → s.pendingAtReturn = 0) := by
+  intro h
+  have := h .holdingPermit 2 [.ret 0, .raise 0] [.finish 1] _ 0 (by decide) rfl rfl
+  revert this; decide
+
+/-- The repaired defect F3, kept as a witness: before 426463a22, one task submitted, the body raises: `_shutdown()` cancelled the
+task without waiting for it and the exit raised while it was still pending. -/
+theorem pending_empty_at_exit_failed_before_repair :
+    ¬ (∀ (en : Entry) (n : Nat) (outs : List Outcome) (ops : List Op) (s : State),
+        1 ≤ n → runOld .online en n outs ops = some s → (s.helper ≠ .active ∧ s.helper ≠ .exiting) → s.pendingAtReturn = 0) := by
+  intro h
+  have := h .holdingPermit 1 [.ret 0] [.body (.raise 0)] _ (by decide) rfl (by decide)
+  revert this; decide
 
 /-! ## non-vacuity: the runs behind the witnesses, and ordinary ones -/
 
@@ -232,19 +226,27 @@ theorem pending_empty_at_exit_partial (h : run .online en n outs ops = some s)
 example : run .returnExceptions .holdingPermit 2 [.ret 1, .raise 2, .ret 3] [.finish 1, .finish 0, .finish 2]
     = some ⟨.returnExceptions, .holdingPermit, [.ret 1, .raise 2, .ret 3], [.done (.ok 1), .done (.err 2), .done (.ok 3)], 2,
         .returned [.ok 1, .err 2, .ok 3], none, 0⟩ := by decide
--- F1: bounded_gather(parallelism=1), two tasks: both running after the call
-example : (start .returnExceptions .boundedGather 1 [.ret 0, .ret 0]).st = [.running, .running] := by decide
--- F2: cancel_on_error, failing task first: task 1 keeps running, the helper has raised
+-- bounded_gather(parallelism=1), two tasks: one runs, one waits (before the repair F1: both ran)
+example : (start .returnExceptions .boundedGather 1 [.ret 0, .ret 0]).st = [.running, .queued] := by decide
+example : (startOld .returnExceptions .boundedGather 1 [.ret 0, .ret 0]).st = [.running, .running] := by decide
+-- cancel_on_error, failing task first: task 1 is cancelled too and nothing is pending when the helper raises (before F2: running)
 example : run .raiseCancel .holdingPermit 1 [.raise 0, .ret 0] [.finish 0]
+    = some ⟨.raiseCancel, .holdingPermit, [.raise 0, .ret 0], [.done (.err 0), .done .cancelled], 2, .raised 0, none, 0⟩ := by decide
+example : runOld .raiseCancel .holdingPermit 1 [.raise 0, .ret 0] [.finish 0]
     = some ⟨.raiseCancel, .holdingPermit, [.raise 0, .ret 0], [.done (.err 0), .running], 1, .raised 0, none, 1⟩ := by decide
--- F2: failing task last: task 0 is cancelled, but was unfinished (1) when the helper raised
+-- failing task last: task 0 is cancelled and awaited (before F2: 1 task unfinished when the helper raised)
 example : run .raiseCancel .holdingPermit 2 [.ret 0, .raise 0] [.finish 1]
+    = some ⟨.raiseCancel, .holdingPermit, [.ret 0, .raise 0], [.done .cancelled, .done (.err 0)], 3, .raised 0, none, 0⟩ := by
+  decide
+example : runOld .raiseCancel .holdingPermit 2 [.ret 0, .raise 0] [.finish 1]
     = some ⟨.raiseCancel, .holdingPermit, [.ret 0, .raise 0], [.done .cancelled, .done (.err 0)], 3, .raised 0, none, 1⟩ := by
   decide
--- F3: online pool, body raises: the task is cancelled, but was unfinished (1) when the exit raised
+-- online pool, body raises: the task is cancelled and awaited (before F3: unfinished (1) when the exit raised)
 example : run .online .holdingPermit 1 [.ret 0] [.body (.raise 0)]
+    = some ⟨.online, .holdingPermit, [.ret 0], [.done .cancelled], 1, .raised 0, some 0, 0⟩ := by decide
+example : runOld .online .holdingPermit 1 [.ret 0] [.body (.raise 0)]
     = some ⟨.online, .holdingPermit, [.ret 0], [.done .cancelled], 1, .raised 0, some 0, 1⟩ := by decide
--- F4: after the error two bodies run under a one-permit semaphore
+-- F4 (open): after the error two bodies run under a one-permit semaphore
 example : run .raiseFirst .holdingPermit 1 [.raise 0, .ret 0, .ret 0] [.finish 0]
     = some ⟨.raiseFirst, .holdingPermit, [.raise 0, .ret 0, .ret 0], [.done (.err 0), .running, .running], 0, .raised 0, none,
         2⟩ := by decide
